@@ -11,7 +11,7 @@ from ..runner import Acc
 ID = "C20"
 ENGINE = "E1"
 LEVEL = "model_checking"
-RULE = ("every vector in {0..4}^k, k<=K (all orders, not only sorted ones) x {list, tuple, numpy array} x the five sum-based "
+RULE = ("every vector in {0..4}^k, k<=K (all orders, not only sorted ones) x {list, tuple, numpy float array; for k<=4 also a list of numpy integers and an integer array} x the five sum-based "
         "objectives with every k-parameter 1..k+2 x (k<=3) every weight vector in {1,2,3}^k; on sorted vectors additionally the "
         "declared-sorted fast path; oracle: the documented definitions (-min, max, max-min, -sum of the j smallest, sum of the j "
         "largest, -min of sum/weight). The weighted objective may refuse the sorted flag but must not return a wrong value. "
@@ -159,7 +159,10 @@ def _val(o, vec, flag):
 def _check(acc, v):
     k = len(v)
     is_sorted = list(v) == sorted(v)
-    for mk, nm in ((list, "list"), (tuple, "tuple"), (lambda x: np.array(x, dtype=float), "array")):
+    for mk, nm in ((list, "list"), (tuple, "tuple"), (lambda x: np.array(x, dtype=float), "array"),
+                   (lambda x: [np.int64(e) for e in x], "list-of-numpy-ints"), (lambda x: np.array(x, dtype=np.int64), "int-array")):
+        if nm in ("list-of-numpy-ints", "int-array") and (k > 4 or max(v) >= 2 ** 62):
+            continue
         acc.point(nontrivial=(len(set(v)) > 1))
         for spec, f in _defs(k):
             o = repo.objective(spec)
